@@ -43,6 +43,7 @@ RULE = ("(a)+(b): Hypothesis draws well-formed definition closures (vlib.defgen.
         "files and >=1 padded struct (a)/(b), a closure compiled after >=1 different closure in the same process (a'), or a detected edit (c); distinct = (graph shape, #files, options, black?, classes) or (edit kind, target).")
 ASSUME = [
     "the first line of the .txt info output is a comment holding the output file's own path relative to the definition root; it is compared after removing that path (it must differ when the output directory differs)",
+    "checked on the unchanged tree: nothing but that first .txt line depends on how the root file's path is spelled (symlinks, relative/absolute, ..)",
     "both runs of a pair use the same black mode; black itself is assumed deterministic",
     "the combined YAML embeds only IMPORT_COREDEFS; validate_alignment / auto_pad of the original compilation are passed again on the command line",
     "type_source (the path of the defining file) legitimately changes through the combined-YAML round trip and is not compared",
@@ -236,6 +237,46 @@ def run_program(E: L.Examiner, program: G.Program, black: bool, hashseed: int, r
                             f"give different gdefs{L.OUT_EXT[ext]}: {_first_diff(a, b)}"))
             if res is not None:
                 res.count("output-pairs-compared")
+        # ---- (a) spellings of the root path: through symbolic links, relative and absolute
+        real_dir = os.path.dirname(root_abs)
+        base = os.path.basename(root_abs)
+        os.symlink(src, os.path.join(w.dir, "tree_link"))                       # link to the top of the source tree
+        up = w.sub("up/one")
+        os.symlink(real_dir, os.path.join(w.dir, "up", "rootdir_link"))          # link to the root file's own directory, one level up
+        spell_cwd = up
+        spellings = [
+            ("abs-symlinked-tree", os.path.join(w.dir, "tree_link", os.path.relpath(root_abs, src))),
+            ("rel-symlinked-rootdir", os.path.join("..", "rootdir_link", base)),
+            ("abs-symlinked-rootdir", os.path.join(w.dir, "up", "rootdir_link", base)),
+            ("rel-symlinked-tree", os.path.relpath(os.path.join(w.dir, "tree_link", os.path.relpath(root_abs, src)), spell_cwd)),
+            ("rel-dotdot", os.path.join("..", "..", os.path.relpath(real_dir, w.dir), ".", base)),
+        ]
+        # two of the five per program (all five appear across programs), compiled by one extra process started elsewhere
+        pick = [spellings[(hashseed + j) % len(spellings)] for j in (0, 2)]
+        sw = L.CompileWorker(cwd=spell_cwd, hashseed="0")
+        try:
+            for tag, spelled in pick:
+                out_s = w.sub("out_" + tag)
+                try:
+                    rcs, errs = sw.compile(spelled, out_s, "gdefs", black, **opts)
+                except L.ToolTimeout:
+                    if res is not None:
+                        res.inconclusive += 1
+                    break
+                if rcs != 0:
+                    out.append((f"determinism/path-spelling/{tag}/rejected", f"the closure compiles through its real path but not when the root file is named {spelled!r}: {errs}"))
+                    continue
+                for ext in EXTS:
+                    a, b = _read(os.path.join(out_a, "gdefs" + L.OUT_EXT[ext])), _read(os.path.join(out_s, "gdefs" + L.OUT_EXT[ext]))
+                    if ext == "txt":
+                        a, b = _norm_txt(a), _norm_txt(b)
+                    if a != b:
+                        out.append((f"determinism/path-spelling/{tag}/{ext}", f"naming the root file {tag} ({spelled!r}) instead of by its real path changes "
+                                    f"gdefs{L.OUT_EXT[ext]}: {_first_diff(a, b)}"))
+                if res is not None:
+                    res.count("path-spelling/" + tag)
+        finally:
+            sw.close()
         out += roundtrip(E, program, os.path.join(out_a, "gdefs_combined.yaml"), out_a, w, res)
     return out
 
